@@ -220,7 +220,7 @@ func (s *site) check(r *ev.Run, t *tally, method string, chain []blob.Ref, assem
 				fmt.Sprintf("%s %s (index %s) answered %d instead of a 401/400-class refusal; chain [%s]: %s", method, u, s.mode, code, w.labels(chain), reason),
 				s.rec(method, u, chain, assemble, code, len(body), model))
 		}
-		if l := s.leaks(body); l != "" {
+		if l := s.leaks(body); l != "" && !ok2xx {
 			r.Violation("refusal-leaks-bytes/"+reason,
 				fmt.Sprintf("%s %s (index %s) answered %d but its body contains the bytes of stored blob %s", method, u, s.mode, code, l),
 				s.rec(method, u, chain, assemble, code, len(body), model))
